@@ -19,7 +19,7 @@ from ..sched import HarnessError, LineTracer, ReplayChooser, Scheduler, current,
 from ..util import digest, short, stream
 
 ID = "C15"
-PRELOAD = ["sqllineage.config", "sim.props.c15"]
+PRELOAD = ["sqllineage.config", "sqllineage.runner", "sim.props.c15"]
 BUDGET_S = {"quick": 120.0, "thorough": 1500.0}
 
 KEYS = ["DEFAULT_SCHEMA", "DIRECTORY", "TSQL_NO_SEMICOLON", "LATERAL_COLUMN_ALIAS_REFERENCE"]
@@ -139,12 +139,37 @@ def _bad(g):
     return ["bad", kw]
 
 
+RUNNER_INPUTS = [
+    # (sql, dialect): library operations that consult the configuration while scopes are open elsewhere. Evaluating
+    # (or failing to evaluate) a runner - wherever and whenever it was constructed - changes nothing a read can observe.
+    ["SELECT * FROM t", "ansi"],
+    ["INSERT INTO a SELECT * FROM b", "tsql"],
+    ["SELECT FROM WHERE )))", "tsql"],
+    ["SELECT 1", "nosuchdialect"],
+    ["SELECT FROM WHERE", "ansi"],
+    ["insert into a select * from b\ninsert into c select * from d", "tsql"],
+]
+
+
+def _runner_ops(g):
+    slot = g.randrange(3)
+    return g.choice([[["mkrunner", slot, g.randrange(len(RUNNER_INPUTS))]], [["evalrunner", slot]], [["evalrunner", slot], ["read", g.choice(KEYS)]],
+                     [["mkrunner", slot, g.randrange(len(RUNNER_INPUTS))], ["evalrunner", slot]]])
+
+
 def _prog(g, swarm, nops):
     ops = []
     while len(ops) < nops:
         r = g.random()
+        if swarm.get("runner") and g.random() < 0.3:
+            ops.extend(_runner_ops(g))
         if r < 0.4:
-            ops.append(["scope", _kw(g), _body(g, swarm, g.choice([1, 2, 3])), swarm["raise"] and g.random() < 0.3])
+            body = _body(g, swarm, g.choice([1, 2, 3]))
+            if swarm.get("runner") and g.random() < 0.6:
+                body.insert(g.randrange(len(body) + 1), ["mkrunner", g.randrange(3), g.randrange(len(RUNNER_INPUTS))])
+                if g.random() < 0.3:
+                    body.append(["evalrunner", g.randrange(3)])
+            ops.append(["scope", _kw(g), body, swarm["raise"] and g.random() < 0.3])
         elif r < 0.6 and swarm["bad"]:
             ops.append(_bad(g))
             ops.append(["read", g.choice(KEYS)])
@@ -166,6 +191,8 @@ def gen(seed, ident_base=1000) -> dict:
         "env": g.random() < 0.6,
         "reuse": g.random() < 0.6,
     }
+    swarm["runner"] = stream(seed, "gen-runner").random() < 0.12
+    fg = stream(seed, "gen-foreign")
     nthreads = g.choice([2, 2, 3, 3, 4])
     threads = []
     for i in range(nthreads):
@@ -174,6 +201,9 @@ def gen(seed, ident_base=1000) -> dict:
         for _ in range(g.choice([1, 1, 2])):
             pred = g.randrange(len(threads))
             threads.append({"prog": _prog(g, swarm, g.choice([1, 2, 3])), "after": pred, "reuse": g.random() < 0.75})
+    for th in threads:
+        if fg.random() < 0.1:
+            th["foreign"] = True
     env0 = {}
     operator = []
     for i, th in enumerate(threads):
@@ -279,17 +309,7 @@ class Boom(Exception):
     pass
 
 
-class _ThreadingShim:
-    """What sqllineage.config sees as ``threading``: the real module, except
-    that simulated threads report their simulated identifier."""
-
-    def __getattr__(self, name):
-        return getattr(_real_threading, name)
-
-    @staticmethod
-    def get_ident():
-        t = current()
-        return t.ident if t is not None else _real_threading.get_ident()
+from ..sched import ThreadingShim as _ThreadingShim  # noqa: E402  (simulated identity: get_ident, enumerate, current_thread)
 
 
 class World:
@@ -500,6 +520,30 @@ def run_one(spec: dict) -> dict:
                 w.scopes[t.idx] = outer
                 if accepted:
                     w.violate("nested_accepted", f"thread {t.idx}: nested override was not refused: {op[1]!r}", t.idx)
+            elif kind == "mkrunner":
+                from sqllineage.runner import LineageRunner
+
+                sql, dialect = RUNNER_INPUTS[op[2]]
+                try:
+                    runners[op[1]] = LineageRunner(sql, dialect=dialect)
+                    w.log(t.idx, "mkrunner", op[1:], "ok")
+                except Exception as e:
+                    w.log(t.idx, "mkrunner", op[1:], "raised:" + type(e).__name__)
+                w.probe("runner_constructed_in_scope" if in_scope else "runner_constructed_outside_scope")
+            elif kind == "evalrunner":
+                r_ = runners.get(op[1])
+                if r_ is None:
+                    w.log(t.idx, "evalrunner", op[1:], "no such runner yet")
+                else:
+                    try:
+                        r_.source_tables
+                        w.log(t.idx, "evalrunner", op[1:], "ok")
+                        w.probe("runner_evaluated")
+                    except (Boom, HarnessError):
+                        raise
+                    except Exception as e:
+                        w.log(t.idx, "evalrunner", op[1:], "raised:" + type(e).__name__)
+                        w.probe("runner_evaluation_failed")
             elif kind == "release":
                 import gc
 
@@ -542,6 +586,7 @@ def run_one(spec: dict) -> dict:
         read(t, "DEFAULT_SCHEMA", "final_read")
 
     handles = {}
+    runners = {}
     crowd_n = int(spec.get("crowd") or 0)
     crowd_state = {"inside": 0, "actives_done": 0}
     base = spec.get("ident_base", 1000)
@@ -581,6 +626,10 @@ def run_one(spec: dict) -> dict:
         # two live threads never share an identifier: a reuser waits for every earlier user
         wait += [sim_threads[j] for j in range(i) if idents[j] == ident and sim_threads[j] not in wait]
         st_ = sched.spawn(f"t{i}", mk(), ident=ident, wait_for=wait)
+        if th.get("foreign"):
+            # a thread the threading module does not list (raw _thread / C-created request thread)
+            st_.ctx["foreign"] = True
+            w.probe("foreign_thread")
         if th.get("hold_handle"):
             # somebody (a list of workers, a future) keeps this thread's Thread object after it ended, and lets go
             # of it later: its identifier may have been handed to a new thread by then
